@@ -26,4 +26,4 @@ META = dict(
     note="Trusted: Lean kernel; harness/events; extractor. Goroutine scheduling of the real bus is sampled, not modelled; unbounded buffers in the model.",
     technique="Lean 4 proof (transaction monad + bus FIFO invariant) + regenerated obligation + differential correspondence",
 )
-ENGINES = [{"name": "events", "path": "harness/events", "serves_properties": ["C20"], "kind_free_text": "mutation histories with bus subscribers and a GraphQL subscription; per step: new commits in the store vs events received"}]
+ENGINES = [{"name": "events", "path": "harness/events", "serves_properties": ["C03", "C20"], "kind_free_text": "mutation histories with bus subscribers and a GraphQL subscription; per step: new commits in the store vs events received"}]
